@@ -144,34 +144,39 @@ def r_C01visitors(root):
         r = call("visit_repeat_modifiers", v, {".kind": "node", ".position": 9}, mk)
         if r[0] != "ret": raise AnalysisError("visit_repeat_modifiers %s" % desc(r))
         return r[1]
+    def arhs(v, rule, modpair=None):
+        """children[2] of visit_assignment: what visit_assignment_rhs makes of the right-hand side and its repeat modifiers"""
+        r = call("visit_assignment_rhs", v, {".kind": "node", ".position": 5}, [rule] + ([modpair] if modpair is not None else []))
+        if r[0] != "ret": raise AnalysisError("visit_assignment_rhs %s" % desc(r))
+        return r[1]
     for op, (kind, rname, mult) in ASG.items():
         v, cls = new_visitor(); r0 = rhs()
-        r = call("visit_assignment", v, node, ["a", op, (r0, None)])
+        r = call("visit_assignment", v, node, ["a", op, arhs(v, r0)])
         at = cls["._tx_attrs"].get("a")
         ok = r[0] == "ret" and isinstance(r[1], dict) and r[1].get(".kind") == kind and r[1].get(".rule_name") == rname and r[1].get(".root") is True and r[1].get(".nodes") == [r0] and r[1].get("._attr_name") == "a" \
              and at is not None and at[".mult"] == mult and bool(at[".bool_assignment"]) == (op == "?=") and isinstance(at.get(".cls"), dict) and at[".cls"].get(".cls_name") == ("BOOL" if op == "?=" else "INT") and at[".cont"] is True and at[".ref"] is False
         rep("C01.a", "visit_assignment", "a%sINT" % op, ok, "the assignment  a%sINT  becomes %s with attribute %s; documented: root %s %r over [INT] for attribute a, multiplicity %r, type %s%s" % (op, desc(r), {k_: (at[k_] if k_ != ".cls" else (at[k_] or {}).get(".cls_name")) for k_ in (".mult", ".bool_assignment", ".cls", ".cont", ".ref")} if at else None, kind, rname, mult, "BOOL" if op == "?=" else "INT", ", a bool attribute" if op == "?=" else ""), props_=("C01", "C02"))
     for op in ("=", "?="):
         v, cls = new_visitor()
-        r = call("visit_assignment", v, node, ["a", op, (rhs(), mods(v, E("StrMatch", to_match=",")))])
+        r = call("visit_assignment", v, node, ["a", op, arhs(v, rhs(), mods(v, E("StrMatch", to_match=",")))])
         rep("C01.b", "visit_assignment", "a%sINT[',']" % op, r == ("raise", "TextXSyntaxError"), "a%sINT[',']  (modifiers on a single-valued assignment) %s; documented TextXSyntaxError" % (op, desc(r)), props_=("C01", "C23"))
     for op in ("+=", "*="):
         for with_sep, with_eol in ((True, False), (False, True), (True, True)):
             v, cls = new_visitor(); sepm = E("StrMatch", to_match=",") if with_sep else None
-            r = call("visit_assignment", v, node, ["a", op, (rhs(), mods(v, sepm, with_eol))])
+            r = call("visit_assignment", v, node, ["a", op, arhs(v, rhs(), mods(v, sepm, with_eol))])
             what = "a%sINT[%s]" % (op, " ".join(x for x in ("','" if with_sep else "", "eolterm" if with_eol else "") if x))
             ok = r[0] == "ret" and isinstance(r[1], dict) and r[1].get(".kind") == ASG[op][0] and r[1].get(".sep") is sepm and bool(r[1].get(".eolterm")) == with_eol
             rep("C01.b", "visit_assignment", what, ok, "%s  becomes %s; documented %s with %s" % (what, desc(r), ASG[op][0], " and ".join(x for x in ("the separator ','" if with_sep else "no separator", "eolterm" if with_eol else "no eolterm"))), props_=("C01", "C19"))
     # a*= after a+= keeps 1..*; repeated assignments and types
     v, cls = new_visitor()
-    call("visit_assignment", v, node, ["a", "+=", (rhs(), None)]); r = call("visit_assignment", v, node, ["a", "*=", (rhs(), None)])
+    call("visit_assignment", v, node, ["a", "+=", arhs(v, rhs())]); r = call("visit_assignment", v, node, ["a", "*=", arhs(v, rhs())])
     rep("C01.a", "visit_assignment", "a+=INT ... a*=INT", r[0] == "ret" and cls["._tx_attrs"]["a"][".mult"] == MP, "after a+=INT a later a*=INT leaves the multiplicity %r; documented: 1..* is kept" % (cls["._tx_attrs"].get("a", {}).get(".mult"),), props_=("C01", "C02"))
     v, cls = new_visitor()
-    call("visit_assignment", v, node, ["a", "=", (rhs(), None)]); r = call("visit_assignment", v, node, ["a", "?=", (rhs(), None)])
+    call("visit_assignment", v, node, ["a", "=", arhs(v, rhs())]); r = call("visit_assignment", v, node, ["a", "?=", arhs(v, rhs())])
     rep("C01.a", "visit_assignment", "a=INT ... a?=INT", r == ("raise", "TextXSemanticError"), "a second assignment with ?= to an attribute already assigned %s; documented TextXSemanticError" % desc(r), props_=("C01", "C23"))
     for second, want in (("INT", "INT"), ("STRING", "OBJECT")):
         v, cls = new_visitor()
-        call("visit_assignment", v, node, ["a", "=", (rhs("INT"), None)]); r = call("visit_assignment", v, node, ["a", "=", (rhs(second), None)])
+        call("visit_assignment", v, node, ["a", "=", arhs(v, rhs("INT"))]); r = call("visit_assignment", v, node, ["a", "=", arhs(v, rhs(second))])
         got = (cls["._tx_attrs"]["a"].get(".cls") or {}).get(".cls_name")
         rep("C01.i", "visit_assignment", "a=INT ... a=%s" % second, r[0] == "ret" and got == want, "an attribute assigned from INT and then from %s gets the type %r; documented %r" % (second, got, want), props_=("C01", "C07", "C10", "C25"))
     # link
@@ -179,14 +184,14 @@ def r_C01visitors(root):
     for second in (None, "Target", "Other"):
         v, cls = new_visitor()
         link = HS({".kind": "RuleCrossRef", ".rule_name": "FQN", ".cls": "Target", ".scope_provider": prov, ".suppress": False, ".position": 3})
-        r = call("visit_assignment", v, node, ["r", "=", (("obj_ref", link), None)])
+        r = call("visit_assignment", v, node, ["r", "=", arhs(v, ("obj_ref", link))])
         at = cls["._tx_attrs"].get("r")
         if second is None:
             ok = r[0] == "ret" and isinstance(r[1], dict) and r[1].get(".nodes") == [link] and at is not None and at[".ref"] is True and at[".cont"] is False and at.get(".scope_provider") is prov and at.get(".match_rule_name") == "FQN" and (at.get(".cls") or {}).get(".cls_name") == "Target"
             rep("C01.a", "visit_assignment", "r=[Target|FQN|rrel]", ok, "the link assignment  r=[Target|FQN|rrel]  becomes %s with attribute %s; documented: a non-containment reference of type Target that carries the link's provider and match rule FQN" % (desc(r), {k_: at.get(k_) for k_ in (".ref", ".cont", ".match_rule_name")} if at else None), props_=("C01", "C32"))
         else:
             link2 = HS({".kind": "RuleCrossRef", ".rule_name": "FQN", ".cls": second, ".scope_provider": prov, ".suppress": False, ".position": 3})
-            r2 = call("visit_assignment", v, node, ["r", "=", (("obj_ref", link2), None)])
+            r2 = call("visit_assignment", v, node, ["r", "=", arhs(v, ("obj_ref", link2))])
             got = (cls["._tx_attrs"]["r"].get(".cls") or {}).get(".cls_name"); want = "Target" if second == "Target" else "OBJECT"
             rep("C01.i", "visit_assignment", "r=[Target|FQN] ... r=[%s|FQN]" % second, r2[0] == "ret" and got == want, "a reference attribute assigned twice, to [Target|FQN] and to [%s|FQN], gets the target type %r; documented %r (the same target keeps its type, different targets give OBJECT - the match rule FQN is not the type)" % (second, got, want), props_=("C01", "C07", "C10", "C25"))
     return inst, out
